@@ -58,13 +58,15 @@ type Event map[string]interface{}
 
 // run is one execution of the real scheduler under the controlled Runner.
 type run struct {
-	cfg    Config
-	names  []string // names[i] for stage i (1-based; names[0] unused)
-	byName map[string]int
-	stages []*scheduler.Stage
-	root   *scheduler.ExecutionGraph
-	inner  *scheduler.ExecutionGraph
-	sched  *scheduler.Scheduler
+	cfg     Config
+	names   []string       // names[i] for stage i (1-based; names[0] unused)
+	byName  map[string]int // root-graph names only (labels may repeat inside the nested pipeline)
+	byTask  map[*task.Task]int
+	byStage map[*scheduler.Stage]int
+	stages  []*scheduler.Stage
+	root    *scheduler.ExecutionGraph
+	inner   *scheduler.ExecutionGraph
+	sched   *scheduler.Scheduler
 
 	mu       sync.Mutex
 	log      []Event
@@ -97,7 +99,7 @@ func init() {
 			r := v.(*run)
 			if r.record {
 				r.mu.Lock()
-				r.log = append(r.log, Event{"e": "st", "s": r.byName[st.Name], "v": statusName[status]})
+				r.log = append(r.log, Event{"e": "st", "s": r.byStage[st], "v": statusName[status]})
 				r.mu.Unlock()
 			}
 		}
@@ -111,7 +113,7 @@ var errTask = errors.New("task failed (controlled runner)")
 
 func (c ctrlRunner) Run(t *task.Task) error {
 	r := c.r
-	id := r.byName[t.Name]
+	id := r.byTask[t]
 	ch := make(chan bool, 1)
 	r.mu.Lock()
 	r.entered[id]++
@@ -140,18 +142,36 @@ func (c ctrlRunner) Finish() {}
 
 // newRun builds the real ExecutionGraph for cfg with seed-chosen labels and declaration order.
 func newRun(cfg Config, rng *rand.Rand, pause time.Duration, record bool) (*run, error) {
-	r := &run{cfg: cfg, byName: map[string]int{}, entered: map[int]int{}, inflight: map[int]chan bool{},
+	r := &run{cfg: cfg, byName: map[string]int{}, byTask: map[*task.Task]int{}, byStage: map[*scheduler.Stage]int{}, entered: map[int]int{}, inflight: map[int]chan bool{},
 		done: make(chan struct{}), record: record}
 	n := cfg.N
 	r.names = make([]string, n+1)
-	labels := rng.Perm(n)
-	for i := 1; i <= n; i++ {
-		r.names[i] = fmt.Sprintf("st%c%d", 'a'+rune(labels[i-1]%26), labels[i-1])
-		r.byName[r.names[i]] = i
-	}
 	isInner := map[int]bool{}
 	for _, i := range cfg.Inner {
 		isInner[i] = true
+	}
+	// Stage names are unique within one pipeline only: the nested pipeline re-uses names of
+	// the outer one (seed-chosen), as a configuration may.
+	labels := rng.Perm(n)
+	var outer []string
+	for i := 1; i <= n; i++ {
+		if !isInner[i] {
+			r.names[i] = fmt.Sprintf("st%c%d", 'a'+rune(labels[i-1]%26), labels[i-1])
+			outer = append(outer, r.names[i])
+		}
+	}
+	rng.Shuffle(len(outer), func(a, b int) { outer[a], outer[b] = outer[b], outer[a] })
+	k := 0
+	for i := 1; i <= n; i++ {
+		if isInner[i] {
+			if k < len(outer) && rng.Intn(3) != 0 {
+				r.names[i] = outer[k]
+				k++
+			} else {
+				r.names[i] = fmt.Sprintf("in%c%d", 'a'+rune(labels[i-1]%26), labels[i-1])
+			}
+		}
+		r.byName[r.names[i]] = i
 	}
 	r.stages = make([]*scheduler.Stage, n+1)
 	mk := func(i int) *scheduler.Stage {
@@ -173,8 +193,10 @@ func newRun(cfg Config, rng *rand.Rand, pause time.Duration, record bool) (*run,
 			t := task.FromCommands("true")
 			t.Name = r.names[i]
 			st.Task = t
+			r.byTask[t] = i
 		}
 		r.stages[i] = st
+		r.byStage[st] = i
 		return st
 	}
 	build := func(ids []int) (*scheduler.ExecutionGraph, error) {
